@@ -15,8 +15,8 @@ from vlib.runner import HarnessError, ShardResult, Violation
 
 ID = "C12"
 LEVEL = "exploration"
-RULE = ("a case is (scripts for up to 3 connections on one sid over {config, upload, search, close}, a schedule = sequence of choices "
-        "among the enabled events open(c) / step(c) / release(cleanup delay) / timeout (a wait_for the server armed expires; absent unless the code arms one) "
+RULE = ("a case is (scripts for up to 3 connections on one sid over {config, upload, search, close, abort = the peer vanishes without a closing handshake}, a schedule = sequence of choices "
+        "among the enabled events open(c) / step(c) / release(any one of the pending cleanup delays) / timeout (a wait_for or asyncio.wait timeout the server armed expires; absent unless the code arms one; at most 2-4 per schedule) "
         "/ noise (once per schedule: 130-1100 connections of OTHER services open on the same server) / noise_close (one of them closes, its "
         "cleanup pause becomes one more pending release)); the harness owns every event: the server's "
         "timing sources (asyncio.sleep and wait_for timeouts in the server modules) are a gate and a timer controller driven by the schedule, the transport is an in-memory duplex with the "
@@ -27,7 +27,7 @@ RULE = ("a case is (scripts for up to 3 connections on one sid over {config, upl
         "index; (L) the stored config and index are acknowledged ones. Exhaustive over all schedules of 2 connections with "
         "scripts of length <= 1 (+ selected length-2 scripts) and 3 connections with scripts of length <= 1 in quick; all scripts "
         "of length <= 2 / <= 1 in thorough; Hypothesis draws 3 connections x scripts <= 3 (a quarter with background traffic); every schedule of 4 script sets is also enumerated "
-        "with the background burst as one more event. Every violation is re-executed over real "
+        "with the background burst as one more event, of 4 script sets with an abort, and of 2 three-connection sets in which all connections send the same configuration. Every violation is re-executed over real "
         "loopback sockets before it is reported. Non-trivial = at least two connections overlap in time and at least one "
         "transition is acknowledged; distinct = distinct (scripts, executed event sequence).")
 ASSUMPTIONS = ["interleavings below the asyncio event level (OS socket reordering, multi-process servers) are out of reach",
